@@ -412,8 +412,20 @@ func mixType(a, b Type) Type {
 	return a | b
 }
 
+// adopt gives an untyped number the numeric type of the operation it takes
+// part in, wrapping like assign does. An untyped value can exceed that type's
+// range (1 << n with a run-time n), and converting it straight from float64
+// to the narrow integer type would be implementation-defined.
+func (v Value) adopt(t Type) Value {
+	if v.t == untypedInt && t != untypedInt && t&typedNumberMask != 0 {
+		return v.assign(t)
+	}
+	return v
+}
+
 func (v Value) opAdd(b Value) Value {
 	t := mixType(v.t, b.t)
+	v, b = v.adopt(t), b.adopt(t)
 	switch t {
 	case TypeFloat64:
 		return Value{t: t, num: v.num + b.num}
@@ -433,6 +445,7 @@ func (v Value) opAdd(b Value) Value {
 }
 func (v Value) opSub(b Value) Value {
 	t := mixType(v.t, b.t)
+	v, b = v.adopt(t), b.adopt(t)
 	switch t {
 	case TypeFloat64:
 		return Value{t: t, num: v.num - b.num}
@@ -450,6 +463,7 @@ func (v Value) opSub(b Value) Value {
 }
 func (v Value) opMul(b Value) Value {
 	t := mixType(v.t, b.t)
+	v, b = v.adopt(t), b.adopt(t)
 	switch t {
 	case TypeFloat64:
 		return Value{t: t, num: v.num * b.num}
@@ -467,6 +481,7 @@ func (v Value) opMul(b Value) Value {
 }
 func (v Value) opDiv(b Value) Value {
 	t := mixType(v.t, b.t)
+	v, b = v.adopt(t), b.adopt(t)
 	switch t {
 	case TypeFloat64:
 		return Value{t: t, num: v.num / b.num}
@@ -484,6 +499,7 @@ func (v Value) opDiv(b Value) Value {
 }
 func (v Value) opMod(b Value) Value {
 	t := mixType(v.t, b.t)
+	v, b = v.adopt(t), b.adopt(t)
 	switch t {
 	case TypeFloat64:
 		return Value{t: t, num: float64(int(v.num) % int(b.num))}
@@ -550,6 +566,7 @@ func (v Value) opBitRsh(b Value) Value {
 }
 func (v Value) opBitAnd(b Value) Value {
 	t := mixType(v.t, b.t)
+	v, b = v.adopt(t), b.adopt(t)
 	switch t {
 	case TypeFloat64:
 		return Value{t: t, num: float64(int(v.num) & int(b.num))}
@@ -568,6 +585,7 @@ func (v Value) opBitAnd(b Value) Value {
 
 func (v Value) opBitOr(b Value) Value {
 	t := mixType(v.t, b.t)
+	v, b = v.adopt(t), b.adopt(t)
 	switch t {
 	case TypeFloat64:
 		return Value{t: t, num: float64(int(v.num) | int(b.num))}
@@ -585,6 +603,7 @@ func (v Value) opBitOr(b Value) Value {
 }
 func (v Value) opBitXor(b Value) Value {
 	t := mixType(v.t, b.t)
+	v, b = v.adopt(t), b.adopt(t)
 	switch t {
 	case TypeFloat64:
 		return Value{t: t, num: float64(int(v.num) ^ int(b.num))}
